@@ -160,8 +160,8 @@ class WeakForms(_Simu):
 
     def Save_Iter(self, iter=None):
 
-        if iter is None:
-            iter = {}
+        # never write into the dict of the caller (it may be reused from step to step)
+        iter = {} if iter is None else iter.copy()
 
         if self.algo == AlgoType.elliptic:
             iter["u"] = self.u
